@@ -237,6 +237,7 @@ let with_schema (case : string) (f : ctx -> string -> 'a) : 'a =
      OOB encode               output[] of Message::encode(f8String&)
      OOB <site>               any other memory-error site of the codec model
      UB fast_atoi             UBSan site in fast_atoi<int> (message otherwise accepted)
+     UB datetime              UBSan site in parse_decimal / time_to_epoch (field.hpp)
      UB calc_chksum           misaligned uint32 load in calc_chksum (CHKSUM op only)
      HANG                     decode_group without progress
    Oracle (Spec_C03): c03_ok (obs_of_word <first word>) -- OK or EXC. *)
@@ -252,6 +253,7 @@ let string_of_dclass (c : ctx) (d : dclass) : string =
   | DOther s -> "OOB " ^ string_of_int (int_of_n s)
   | DHang -> "HANG"
   | DUb -> "UB fast_atoi"
+  | DUbDate -> "UB datetime"
   | DFuel -> "MODEL-FUEL"
 let string_of_eclass (e : eclass) : string =
   match e with
@@ -279,6 +281,12 @@ let c03_run (c : ctx) (case : string) : string =
          | DOk m -> string_of_eclass (enc_class c m)
          | d -> string_of_dclass c d)
     | ["ATOI"; hx] -> atoi_line (nlist_of_hex hx)
+    | ["DTPARSE"; kind; hx] ->
+        let ty = (match kind with "ts" -> 22 | "time" -> 23 | "date" -> 24 | _ -> raise (Bad_case "kind")) in
+        (match dt_ub (n_of_int ty) (nlist_of_hex hx) with
+         | Some true -> "UB datetime"
+         | Some false -> "OK"
+         | None -> "MODEL-UNDETERMINED")
     | ["CHKSUM"; mis; hx] ->
         let data = nlist_of_hex hx in
         let len = List.length data in
